@@ -6,6 +6,7 @@ import (
 	"os"
 	"path/filepath"
 	"runtime"
+	"sort"
 	"strings"
 	"testing"
 	"time"
@@ -135,6 +136,7 @@ func (C07) Run(t *testing.T, plan *kernel.Plan, keepLog bool) *kernel.Result {
 		c07Modes(w, disk)
 		c07OwnerBinding(w, disk, model)
 		c07Tamper(w, disk, model)
+		c07TamperHistory(w, disk, model)
 		w.Res.SimNanos = int64(time.Since(start))
 		w.Res.Trivial = len(model.Rings) < 1
 	})
@@ -427,6 +429,60 @@ func c07Tamper(w *kernel.World, d *Disk, m *Model) {
 			}
 		}
 		diskSet(d, loc, orig)
+	}
+}
+
+// c07TamperHistory (v1): a rotated key lives in a file of its own under <key>.old/. A byte of such a file is
+// flipped and all keys of the kind are read: the read must fail, not hand out the remaining keys as if they were all.
+func c07TamperHistory(w *kernel.World, d *Disk, m *Model) {
+	if d.Format != 1 {
+		return
+	}
+	for _, id := range m.RingIDs() {
+		r := m.Rings[id]
+		switch r.Kind {
+		case KStorageSym, KPoisonSym, KStoragePair, KPoisonPair:
+		default:
+			continue
+		}
+		if r.Newest() == nil || !r.Newest().Alive {
+			continue
+		}
+		prefix := c07Location(d, r.Kind, r.Client) + ".old/"
+		var hist []string
+		for _, p := range d.FS.Paths() {
+			if strings.HasPrefix(p, prefix) {
+				hist = append(hist, p)
+			}
+		}
+		sort.Strings(hist)
+		if len(hist) == 0 {
+			continue
+		}
+		loc := hist[len(hist)/2]
+		orig, ok := diskGet(d, loc)
+		if !ok || len(orig) == 0 {
+			continue
+		}
+		for _, pos := range []int{0, len(orig) / 2, len(orig) - 1} {
+			mod := append([]byte(nil), orig...)
+			mod[pos] ^= 0x01
+			diskSet(d, loc, mod)
+			h := freshObserver(d)
+			var got [][]byte
+			err, pv := Guard(func() error { var e error; got, e = h.ReadAll(r.Kind, []byte(r.Client)); return e })
+			w.Res.Extra["tamper_mutations"]++
+			diskSet(d, loc, orig)
+			if pv != nil {
+				w.Violate("C07", "no-panic", "v1/tamper", fmt.Sprintf("%s byte %d: %v", loc, pos, pv))
+				return
+			}
+			if err == nil {
+				w.Violate("C07", "tamper-evident", "v1/"+shape(r.Kind)+"/rotated", fmt.Sprintf("%s: byte %d of %d flipped is not detected when all keys are read (%d keys returned, %d history files)", loc, pos, len(orig), len(got), len(hist)))
+				return
+			}
+		}
+		w.Probe("rotated-key-file-tampered")
 	}
 }
 
